@@ -236,6 +236,19 @@ def check_C03(ctx):
               'each in 13 contexts: atom, next to dots, quoted, escaped, before and after quoted words')
     corr(ctx, 'G-sweep', gens.local_sweep(), project, exhaustive=True, describe=describe, nontrivial=nontriv)
     corr(ctx, 'G-random-long', gens.local_random(ctx.rnd, 40000 if not ctx.thorough() else 400000), project, describe=describe, nontrivial=nontriv)
+    # the end pointer inside a multi-byte character: the bytes that would complete it (or not) lie at and after `end`
+    chars = ['\u00e9', '\u042e', '\u07ff', '\u0800', '\u20ac', '\ud7ff', '\ue000', '\uffff', '\U00010000', '\U0001f600', '\U0010ffff']
+    cut = []
+    for ch in chars:
+        x = ch.encode()
+        for k in range(1, len(x)):
+            for pre in (b'', b'a', b'a.', b'"', b'"\\', b'x.y'):
+                for suf in (b'', b'b', b'"', b'@d.e', b'.c'):
+                    cut.append('L %s %s' % (hx(pre + x[:k]), hx(x[k:] + suf)))
+                cut.append('L %s %s' % (hx(pre + x[:k]), hx(b'\x80' * (len(x) - k))))
+                cut.append('L %s %s' % (hx(pre + x[:k]), hx(b'\xbf')))
+    corr(ctx, 'G-cut(end inside a character)', cut, project, exhaustive=True, describe=describe, nontrivial=nontriv,
+         note='2-, 3- and 4-byte characters cut at every position by the end pointer, the missing continuation bytes right behind it')
     # C03_ascii_agrees, on the implementation alone: modes 6531 and 5321 decide identically on pure ASCII
     lib = ctx.snap.lib()
     lines = [l for l in gens.local_class(5, alpha=[b'a', b'.', b'"', b'\\', b' ', b'\t', b'(', b'\x01', b'\x7f', b'#'])]
